@@ -106,7 +106,7 @@ func inspectBlocks(src []byte) (map[int][]blockSite, error) {
 // C04: every accepted grammar yields Go code that compiles, vets and initialises.
 func C04(c *Ctx) {
 	c.Rule("grammars with adversarial rule names (digit suffixes, prefixes of one another, non-ASCII letters, names resembling the generated on*/call* methods) and labels at every scope boundary, with and without state blocks, each generated under ALL 32 combinations of -optimize-parser, -optimize-grammar, -optimize-basic-latin, -support-left-recursion, -nolint with the receiver name rotating over c, p, cur, self and -cache added to every third set; " +
-		"oracle per (grammar, flag set): pigeon exits 0; go/format leaves the file unchanged; go build and go vet of the package succeed; a process importing the packages starts (package init runs) and parses one input per package to the model's value; " +
+		"oracle per (grammar, flag set): pigeon exits 0; go/format leaves the file unchanged; go build and go vet of the package succeed; a process importing the packages starts (package init runs) and parses one input per package to the model's value; a Parse call made from a package-level variable initialiser of the user package returns what the same call returns after initialisation; " +
 		"by go/parser inspection each code-block id occurs in exactly one method of *current whose parameter list is exactly the model's label scope (checked without -optimize-grammar, which legitimately duplicates blocks); " +
 		"plus: every Unicode class name the front-end accepts (enumerated through the hook, all of them) is used in a class, generated with and without -optimize-basic-latin, initialised and matched against a member. " +
 		"distinct_nontrivial = distinct (grammar, flag set) whose package compiled and ran")
@@ -246,6 +246,7 @@ func (c *Ctx) c04Chunk(gs []*gast.Grammar, flagSets [][]string, rng *rand.Rand, 
 			}
 		}
 		cases = append(cases, &mon.Case{ID: u.Pkg, Pkg: u.Pkg, Input: inputs[u.GIdx], MaxExpr: 300000, MaxEvents: 200})
+		cases = append(cases, &mon.Case{ID: u.Pkg + "/init", Pkg: u.Pkg, InitProbe: true})
 	}
 	res := bt.Run(cases, batch.RunOpts{})
 	for _, u := range bt.Units {
@@ -262,6 +263,18 @@ func (c *Ctx) c04Chunk(gs []*gast.Grammar, flagSets [][]string, rng *rand.Rand, 
 			continue
 		}
 		c.Distinct(u.Pkg + u.FlagID + gast.Short(u.G))
+		// "package initialisation does not panic", for a user package that parses while its variables are
+		// initialised: the call made then returns what the same call returns afterwards
+		if ip := res[u.Pkg+"/init"]; ip != nil && ip.Init != nil {
+			c.CovAdd("init_time_parses_compared", 1)
+			if ip.Init.ErrNil {
+				c.CovAdd("init_time_parses_matching", 1)
+			}
+			if ip.Init.Val != ip.Val || ip.Init.ErrStr != ip.ErrStr || ip.Init.Panic != ip.Panic {
+				c.Report(&Violation{Class: "C04/init-time-parse", Summary: fmt.Sprintf("Parse called from a package-level variable initialiser returns %s / %q / panic %q, the same call after initialisation %s / %q / %q; flags [%s] grammar %q input %q",
+					trunc(ip.Init.Val), trunc(ip.Init.ErrStr), trunc(ip.Init.Panic), trunc(ip.Val), trunc(ip.ErrStr), trunc(ip.Panic), u.FlagID, gast.Short(u.G), u.InitInput()), Grammar: u.Text, Flags: u.Flags, Input: u.InitInput()})
+			}
+		}
 		if u.GIdx == 0 && len(u.Flags) >= 4 {
 			c.Sample(map[string]any{"grammar": gast.Short(u.G), "flags": u.FlagID, "input": fmt.Sprintf("%q", inputs[u.GIdx]), "value": trunc(r.Val), "compiled": true, "vet": "clean"})
 		}
